@@ -1050,13 +1050,21 @@ class PortSegment(CIPSegment):
         else:
             link = segment.link_address
 
+        if port > 14:
+            # port numbers that do not fit the 4-bit field use the extended port identifier:
+            # port field = 15, 16-bit port number follows the (optional) link address size
+            _ext_port = UINT.encode(port)
+            port = 15
+        else:
+            _ext_port = b""
+
         if len(link) > 1:
             port |= cls.extended_link
             _len = USINT.encode(len(link))
         else:
             _len = b""
 
-        _segment = USINT.encode(port) + _len + link
+        _segment = USINT.encode(port) + _len + _ext_port + link
         if len(_segment) % 2:
             _segment += b"\x00"
 
